@@ -526,6 +526,22 @@ def rule_alloc_pyx(ctx, m):
     """(b) pyx: index arrays passed to the C path routines are allocated with len1 + len2 entries of the same lengths."""
     mod = m.pyx('dtw_cc')
     n = 0
+    # (b') a result array is sized with distance_matrix_length(block, ..): the block must already carry its form (triangular or not) -- switching the form
+    # afterwards makes the C routine fill more entries than were allocated
+    for pyxname in ('dtw_cc', 'dtw_cc_omp'):
+        pm_ = m.pyx(pyxname)
+        for q, f in sorted(pm_.funcs.items()):
+            order = list(walk_stmts(f.body))
+            sized = [(k_, x) for k_, st in enumerate(order) for e in stmt_exprs(st) for x in walk_expr(e)
+                     if x[0] == 'call' and (dotted(x[1]) or '').split('.')[-1] == 'distance_matrix_length' and x[2] and x[2][0][0] == 'var']
+            for k_, call in sized:
+                blk = call[2][0]
+                late = [st for st in order[k_ + 1:] for e in stmt_exprs(st) for x in walk_expr(e)
+                        if x[0] == 'call' and x[1][0] == 'attr' and x[1][1] == blk and x[1][2] == 'triu_set']
+                n += 1
+                ctx.check(not late, 'R-ALLOC', pm_.path, q, 'result length after block form',
+                          'the result array is sized by distance_matrix_length(%s, ..) and %s.triu_set(..) is called afterwards: the array is sized for the triangular form '
+                          'while the C routine fills the rectangle (a write past the buffer)' % (blk[1], blk[1]), late[0].line if late else order[k_].line)
     for q, f in sorted(mod.funcs.items()):
         arrays = {}
         for s in walk_stmts(f.body):
